@@ -305,6 +305,17 @@ theorem mono_tick (s : State) (fuel i : Nat) : Mono s (tick s fuel i) := by
     refine Mono.trans ?_ (mono_runReady ..)
     exact ⟨Nat.le_refl _, fun _ _ _ => rfl⟩
 
+theorem mono_drain (fuel : Nat) : ∀ (n : Nat) (s : State), Mono s (drain fuel n s) := by
+  intro n
+  induction n with
+  | zero => intro s; unfold drain; split <;> exact ⟨Nat.le_refl _, fun _ _ _ => rfl⟩
+  | succ n ih =>
+    intro s
+    unfold drain
+    split
+    · exact Mono.refl _
+    · exact (mono_tick ..).trans (ih _)
+
 theorem mono_complete (s : State) (f : Nat) (o : St) : Mono s (complete s f o).1 := by
   unfold complete
   split
